@@ -528,6 +528,10 @@ func (s *Server) cmdNearby(msg *Message) (res resp.Value, err error) {
 	}
 	sargs.cmd = "nearby"
 	if sargs.fence {
+		if sargs.usingLua() {
+			// the deferred Close above hands the pooled interpreters back
+			sargs.whereevals = detachWhereevals(sargs.whereevals)
+		}
 		return NOMessage, sargs
 	}
 	sw, err := s.newScanWriter(
@@ -633,6 +637,10 @@ func (s *Server) cmdWITHINorINTERSECTS(cmd string, msg *Message) (res resp.Value
 	}
 	sargs.cmd = cmd
 	if sargs.fence {
+		if sargs.usingLua() {
+			// the deferred Close above hands the pooled interpreters back
+			sargs.whereevals = detachWhereevals(sargs.whereevals)
+		}
 		return NOMessage, sargs
 	}
 	sw, err := s.newScanWriter(
